@@ -121,12 +121,14 @@ def run_case(ctx, kind_, idx):
                 x = arr(rng, 2, 50, increasing=True)
                 y = arr(rng, len(x), len(x))
                 per = bool(rng.integers(0, 2))
+                # the flag is a truth value: numpy booleans (results of comparisons) and 0 / 1 are what callers pass
+                per_arg = [per, np.bool_(per), int(per)][int(rng.integers(0, 3))]
                 xin, _k = gen.as_container(rng, x, allow=("array", "list", "int"))
                 info.update({"x": x if len(x) <= 10 else len(x), "periodic": per})
                 if not per and rng.integers(0, 2):
                     gx, gy = U.append_one_sample(xin, list(y) if rng.integers(0, 2) else y)      # documented default
                 else:
-                    gx, gy = U.append_one_sample(xin, list(y) if rng.integers(0, 2) else y, make_periodic=per)
+                    gx, gy = U.append_one_sample(xin, list(y) if rng.integers(0, 2) else y, make_periodic=per_arg)
                 wx, wy = H.append_one_sample([float(v) for v in x], [float(v) for v in y], per)
                 if not (isinstance(gx, np.ndarray) and isinstance(gy, np.ndarray)):
                     return fail("not_arrays")
